@@ -106,3 +106,28 @@ func Render(ms int64, picture, zone string) (string, error) {
 	}
 	return picture + zone + strings.Repeat("0", int(ms%3)), nil
 }
+
+// Uniq admits a value that is not in the set but never puts it there.
+func Uniq(groups [][]string) []string {
+	seen := map[string]bool{}
+	var out []string
+	for _, g := range groups {
+		for _, s := range g {
+			if !seen[s] {
+				out = append(out, s)
+			}
+		}
+	}
+	return out
+}
+
+type node interface{ tidy() (node, error) }
+
+// TidyAll keeps going after a failure and reports only the last round's error.
+func TidyAll(ns []node) error {
+	var err error
+	for i := range ns {
+		ns[i], err = ns[i].tidy()
+	}
+	return err
+}
